@@ -1117,7 +1117,7 @@ pub fn run(ctx: &mut Ctx) {
 
     // ------------------------------------------------------------------ FBig
     // (base, P digits of significand, E exponent range)
-    let funi: Vec<(u32, u32, i32)> = ctx.pick(vec![(2, 4, 4), (10, 2, 3)], vec![(2, 6, 6), (10, 3, 3), (3, 3, 3), (16, 2, 2)]);
+    let funi: Vec<(u32, u32, i32)> = ctx.pick(vec![(2, 4, 4), (10, 2, 3), (16, 1, 2)], vec![(2, 6, 6), (10, 3, 3), (3, 3, 3), (16, 2, 2)]);
     ctx.bound("fbig_universes(base,P,E)", serde_json::json!(funi));
     let mut fvals: Vec<(u32, i128, i32)> = vec![];
     for &(b, pd, er) in &funi {
